@@ -38,7 +38,8 @@ type Script struct {
 
 type File struct {
 	Name   string  `json:"name"`
-	Exec   bool    `json:"exec"`
+	Exec   bool    `json:"exec"` // owner execute bit
+	Gox    bool    `json:"gox"`  // some group / other execute bit
 	Cid    int     `json:"cid"`
 	Script *Script `json:"script"`
 }
@@ -47,13 +48,14 @@ type Entry struct {
 	Kind   string  `json:"kind"` // file | dir | symlink
 	Name   string  `json:"name"`
 	Exec   bool    `json:"exec"`
+	Gox    bool    `json:"gox"`
 	Cid    int     `json:"cid"`
 	Script *Script `json:"script"`
 	Nested []File  `json:"nested"`
 }
 
 type Op struct {
-	Kind      string  `json:"kind"` // install | uninstall
+	Kind      string  `json:"kind"` // install | uninstall | plant | rmexe
 	Name      string  `json:"name"`
 	Overwrite bool    `json:"overwrite"`
 	SrcIsDir  bool    `json:"srcIsDir"`
@@ -62,10 +64,11 @@ type Op struct {
 }
 
 type Input struct {
-	Kind string `json:"kind"` // seq | semver
-	Ops  []Op   `json:"ops"`
-	V    string `json:"v"`
-	W    string `json:"w"`
+	Kind   string `json:"kind"`   // seq | semver
+	NoRoot bool   `json:"noRoot"` // the plugin root directory does not exist at the start
+	Ops    []Op   `json:"ops"`
+	V      string `json:"v"`
+	W      string `json:"w"`
 }
 
 // ---- observation ---------------------------------------------------------------------------
@@ -74,6 +77,7 @@ type FileObs struct {
 	Name string `json:"name"`
 	Cid  int    `json:"cid"`
 	Exec bool   `json:"exec"`
+	Gox  bool   `json:"gox"`
 }
 
 type PluginObs struct {
@@ -135,18 +139,24 @@ func content(cid int, s *Script) string {
 	}
 }
 
-func mode(cid int, exe bool) os.FileMode {
-	if exe {
-		return []os.FileMode{0o755, 0o700, 0o744}[cid%3]
+// mode: owner execute bit = exe, some group/other execute bit = gox; the rest varies with the content id
+func mode(cid int, exe, gox bool) os.FileMode {
+	switch {
+	case exe && gox:
+		return []os.FileMode{0o755, 0o750, 0o711, 0o705}[cid%4]
+	case exe:
+		return []os.FileMode{0o700, 0o744, 0o740}[cid%3]
+	case gox:
+		return []os.FileMode{0o654, 0o610, 0o601, 0o655}[cid%4]
 	}
 	return []os.FileMode{0o644, 0o600, 0o640}[cid%3]
 }
 
-func writeFile(path string, cid int, exe bool, s *Script) error {
+func writeFile(path string, cid int, exe, gox bool, s *Script) error {
 	if err := os.WriteFile(path, []byte(content(cid, s)), 0o600); err != nil {
 		return err
 	}
-	return os.Chmod(path, mode(cid, exe))
+	return os.Chmod(path, mode(cid, exe, gox))
 }
 
 // materialise builds the source of an install operation under base and returns PluginPath.
@@ -163,7 +173,7 @@ func materialise(base string, op Op) (string, error) {
 		}
 		e := op.Entries[0]
 		p := filepath.Join(base, e.Name)
-		return p, writeFile(p, e.Cid, e.Exec, e.Script)
+		return p, writeFile(p, e.Cid, e.Exec, e.Gox, e.Script)
 	}
 	src := filepath.Join(base, op.SrcBase)
 	if err := os.MkdirAll(src, 0o755); err != nil {
@@ -173,7 +183,7 @@ func materialise(base string, op Op) (string, error) {
 		p := filepath.Join(src, e.Name)
 		switch e.Kind {
 		case "file":
-			if err := writeFile(p, e.Cid, e.Exec, e.Script); err != nil {
+			if err := writeFile(p, e.Cid, e.Exec, e.Gox, e.Script); err != nil {
 				return "", err
 			}
 		case "dir":
@@ -181,7 +191,7 @@ func materialise(base string, op Op) (string, error) {
 				return "", err
 			}
 			for _, f := range e.Nested {
-				if err := writeFile(filepath.Join(p, f.Name), f.Cid, f.Exec, f.Script); err != nil {
+				if err := writeFile(filepath.Join(p, f.Name), f.Cid, f.Exec, f.Gox, f.Script); err != nil {
 					return "", err
 				}
 			}
@@ -191,7 +201,7 @@ func materialise(base string, op Op) (string, error) {
 				return "", err
 			}
 			t := filepath.Join(tdir, strconv.Itoa(e.Cid))
-			if err := writeFile(t, e.Cid, e.Exec, e.Script); err != nil {
+			if err := writeFile(t, e.Cid, e.Exec, e.Gox, e.Script); err != nil {
 				return "", err
 			}
 			if err := os.Symlink(t, p); err != nil {
@@ -209,7 +219,7 @@ var cidRe = regexp.MustCompile(`cid=(\d+)`)
 func snapshot(ctx context.Context, m *plugin.CLIManager, root string) ([]PluginObs, []string, error) {
 	out := []PluginObs{}
 	des, err := os.ReadDir(root) // sorted by name
-	if err != nil {
+	if err != nil && !errors.Is(err, os.ErrNotExist) {
 		return nil, nil, err
 	}
 	for _, de := range des {
@@ -242,7 +252,7 @@ func snapshot(ctx context.Context, m *plugin.CLIManager, root string) ([]PluginO
 			if mm := cidRe.FindSubmatch(b); mm != nil {
 				cid, _ = strconv.Atoi(string(mm[1]))
 			}
-			po.Files = append(po.Files, FileObs{Name: fe.Name(), Cid: cid, Exec: fi.Mode().Perm()&0o100 != 0})
+			po.Files = append(po.Files, FileObs{Name: fe.Name(), Cid: cid, Exec: fi.Mode().Perm()&0o100 != 0, Gox: fi.Mode().Perm()&0o011 != 0})
 		}
 		// fetch the plugin by the name of its directory and ask it
 		if p, err := m.Get(ctx, de.Name()); err == nil {
@@ -270,8 +280,10 @@ func runSeq(work string, in Input) (Obs, error) {
 	}
 	defer os.RemoveAll(work)
 	root := filepath.Join(work, "root")
-	if err := os.MkdirAll(root, 0o755); err != nil {
-		return obs, err
+	if !in.NoRoot {
+		if err := os.MkdirAll(root, 0o755); err != nil {
+			return obs, err
+		}
 	}
 	ctx := context.Background()
 	m := plugin.NewCLIManager(dir.NewSysFS(root))
@@ -312,6 +324,33 @@ func runSeq(work string, in Input) (Obs, error) {
 			default:
 				st.Err = "other"
 			}
+		case "plant":
+			// the world, not the manager: <root>/<name> becomes a directory holding exactly these files
+			if !validPluginName(op.Name) {
+				break
+			}
+			d := filepath.Join(root, op.Name)
+			if err := os.RemoveAll(d); err != nil {
+				return obs, err
+			}
+			if err := os.MkdirAll(d, 0o755); err != nil {
+				return obs, err
+			}
+			for _, e := range op.Entries {
+				if e.Kind != "file" {
+					continue
+				}
+				if err := writeFile(filepath.Join(d, e.Name), e.Cid, e.Exec, e.Gox, e.Script); err != nil {
+					return obs, err
+				}
+			}
+		case "rmexe":
+			// the world: only the binary is deleted
+			if validPluginName(op.Name) {
+				if err := os.Remove(filepath.Join(root, op.Name, "notation-"+op.Name)); err != nil && !errors.Is(err, os.ErrNotExist) {
+					return obs, err
+				}
+			}
 		default:
 			return obs, fmt.Errorf("bad op kind %q", op.Kind)
 		}
@@ -323,6 +362,11 @@ func runSeq(work string, in Input) (Obs, error) {
 		obs.Steps = append(obs.Steps, st)
 	}
 	return obs, nil
+}
+
+// validPluginName: a single path element (the harness never plants outside the root)
+func validPluginName(n string) bool {
+	return n != "" && n != "." && n != ".." && !strings.ContainsAny(n, "/\\\x00")
 }
 
 func runSemver(in Input) Obs {
@@ -371,8 +415,19 @@ func (g *gen) script(name string) *Script {
 	return s
 }
 
+// fileEntry: a regular file; an executable one usually also has group/other execute bits,
+// a non-executable one sometimes has ONLY those (0654, 0610, 0601: not executable for the code)
 func (g *gen) fileEntry(name string, exe bool, s *Script) Entry {
-	return Entry{Kind: "file", Name: name, Exec: exe, Cid: g.next(), Script: s, Nested: []File{}}
+	gox := g.chance(0.12)
+	if exe {
+		gox = g.chance(0.6)
+	}
+	return Entry{Kind: "file", Name: name, Exec: exe, Gox: gox, Cid: g.next(), Script: s, Nested: []File{}}
+}
+
+// goxOnly: named like a plugin, group/other-executable but not owner-executable
+func (g *gen) goxOnly(name string, s *Script) Entry {
+	return Entry{Kind: "file", Name: name, Exec: false, Gox: true, Cid: g.next(), Script: s, Nested: []File{}}
 }
 
 var extras = []string{"LICENSE", "zlib.so", "a.txt", "README.md", "notation-", "Notation-x", "notation", "~last", "0first"}
@@ -418,6 +473,9 @@ func (g *gen) install() Op {
 			s = g.script(name)
 		}
 		e := g.fileEntry(fn, exe, s)
+		if !exe && g.chance(0.6) {
+			e.Gox = true
+		}
 		op.SrcBase, op.Entries = fn, []Entry{e}
 		g.c.Count(fmt.Sprintf("shape.file.exec=%v", exe))
 		return op
@@ -444,7 +502,12 @@ func (g *gen) install() Op {
 		k++
 		used[fn] = true
 		n, _ := strings.CutPrefix(fn, "notation-")
-		op.Entries = append(op.Entries, g.fileEntry(fn, i < nExec, g.script(n)))
+		e := g.fileEntry(fn, i < nExec, g.script(n))
+		if i >= nExec && g.chance(0.4) {
+			e.Gox = true
+			g.c.Count("shape.dir.candidate-gox-only")
+		}
+		op.Entries = append(op.Entries, e)
 	}
 	for _, x := range extras {
 		if g.chance(0.3) && !used[x] {
@@ -502,6 +565,56 @@ func (g *gen) install() Op {
 	return op
 }
 
+// plant: the world puts a directory under the root: stale files of an interrupted
+// installation (no executable), or a hand-copied / damaged plugin (an executable that is
+// invalid, misnamed, a data file, not executable, or fine)
+func (g *gen) plant() Op {
+	name := g.pick(pluginNames)
+	op := Op{Kind: "plant", Name: name, Entries: []Entry{}}
+	if g.chance(0.08) {
+		op.Name = g.pick([]string{"..", "", "a/b"}) // ignored by harness and model
+	}
+	used := map[string]bool{}
+	for _, x := range []string{"libfoo-1.so", "LICENSE", "a.txt", "zlib.so", "~last", "0first", "notation-zed"} {
+		if g.chance(0.3) {
+			used[x] = true
+			op.Entries = append(op.Entries, g.fileEntry(x, g.chance(0.1), nil))
+		}
+	}
+	switch r := g.c.Rand.Float64(); {
+	case r < 0.55: // stale: no executable
+		g.c.Count("plant.stale")
+	case r < 0.70: // a working plugin copied by hand
+		op.Entries = append(op.Entries, g.fileEntry("notation-"+name, true, &Script{Name: name, Version: g.version(), Valid: true}))
+		g.c.Count("plant.working")
+	default: // malfunctioning
+		exe := true
+		var sc *Script
+		switch g.c.Rand.Intn(4) {
+		case 0:
+			sc = &Script{Name: name, Version: g.pick(validVersions), Valid: false}
+		case 1:
+			sc = &Script{Name: "other", Version: g.pick(validVersions), Valid: true}
+		case 2:
+			sc = nil
+		default:
+			sc, exe = &Script{Name: name, Version: g.pick(validVersions), Valid: true}, false
+		}
+		e := g.fileEntry("notation-"+name, exe, sc)
+		if !exe {
+			e.Gox = false // root could run a file with any execute bit; keep "not executable" unambiguous
+		}
+		op.Entries = append(op.Entries, e)
+		g.c.Count("plant.malfunctioning")
+	}
+	g.c.Rand.Shuffle(len(op.Entries), func(i, j int) { op.Entries[i], op.Entries[j] = op.Entries[j], op.Entries[i] })
+	return op
+}
+
+func (g *gen) rmexe() Op {
+	return Op{Kind: "rmexe", Name: g.pick(pluginNames), Entries: []Entry{}}
+}
+
 func (g *gen) uninstall() Op {
 	n := g.pick([]string{"foo", "foo", "foo", "foo", "foo", "bar", "bar", "a.b", "a.b", "baz", "..", "", "a/b", "."})
 	return Op{Kind: "uninstall", Name: n, Entries: []Entry{}}
@@ -509,13 +622,17 @@ func (g *gen) uninstall() Op {
 
 func (g *gen) sequence() Input {
 	n := 1 + g.c.Rand.Intn(6)
-	in := Input{Kind: "seq", Ops: []Op{}}
+	in := Input{Kind: "seq", NoRoot: g.chance(0.1), Ops: []Op{}}
 	for i := 0; i < n; i++ {
 		switch {
 		case i == 0 && g.chance(0.6):
 			in.Ops = append(in.Ops, g.simpleInstall(g.pick(pluginNames), g.pick(validVersions), false, g.chance(0.5)))
-		case g.chance(0.18):
+		case g.chance(0.15):
 			in.Ops = append(in.Ops, g.uninstall())
+		case g.chance(0.12):
+			in.Ops = append(in.Ops, g.plant())
+		case g.chance(0.05):
+			in.Ops = append(in.Ops, g.rmexe())
 		case g.chance(0.25):
 			in.Ops = append(in.Ops, g.simpleInstall(g.pick(pluginNames), g.version(), g.chance(0.25), g.chance(0.5)))
 		default:
@@ -550,6 +667,37 @@ func (g *gen) regressionShapes() []Input {
 		g.fileEntry("notation-foo", false, s2()), g.fileEntry("zlib.so", false, nil)}}))
 	out = append(out, mk(Op{Kind: "install", SrcIsDir: true, SrcBase: "pkg", Entries: []Entry{
 		g.fileEntry("LICENSE", false, nil), g.fileEntry("notation-foo", false, s2())}}))
+	// an interrupted directory installation left libfoo-1.so (sorts before notation-foo); the next
+	// installation - with / without overwrite, from a directory / a file - ends with exactly its own files
+	for _, ow := range []bool{false, true} {
+		for _, fromDir := range []bool{false, true} {
+			out = append(out, Input{Kind: "seq", Ops: []Op{
+				{Kind: "plant", Name: "foo", Entries: []Entry{g.fileEntry("libfoo-1.so", false, nil), g.fileEntry("LICENSE", false, nil)}},
+				g.simpleInstall("foo", "1.0.0", ow, fromDir),
+				{Kind: "uninstall", Name: "foo", Entries: []Entry{}}}})
+			// only the binary was deleted
+			out = append(out, Input{Kind: "seq", Ops: []Op{
+				g.simpleInstall("foo", "2.0.0", false, true), {Kind: "rmexe", Name: "foo", Entries: []Entry{}},
+				g.simpleInstall("foo", "1.0.0", ow, fromDir)}})
+		}
+	}
+	// a stale directory is listed, cannot be fetched, and Uninstall removes it
+	out = append(out, Input{Kind: "seq", Ops: []Op{
+		{Kind: "plant", Name: "foo", Entries: []Entry{g.fileEntry("libfoo-1.so", false, nil)}},
+		{Kind: "uninstall", Name: "foo", Entries: []Entry{}}}})
+	// "executable" means the owner execute bit: notation-foo with mode 0654 / 0610 / 0601 / 0655
+	for k := 0; k < 4; k++ {
+		// as a single file: refused, the installed plugin stays (with and without overwrite)
+		e := g.goxOnly("notation-foo", s2())
+		out = append(out, Input{Kind: "seq", Ops: []Op{g.simpleInstall("foo", "1.0.0", false, false),
+			{Kind: "install", Overwrite: k%2 == 0, SrcBase: e.Name, Entries: []Entry{e}}}})
+		// as the only candidate of a directory: gets the owner execute bit
+		out = append(out, mk(Op{Kind: "install", SrcIsDir: true, SrcBase: "pkg", Entries: []Entry{
+			g.goxOnly("notation-foo", s2()), g.fileEntry("zlib.so", false, nil)}}))
+		// a plugin-named data file with such a mode next to the real executable is no second executable
+		out = append(out, mk(Op{Kind: "install", SrcIsDir: true, SrcBase: "pkg", Entries: []Entry{
+			g.fileEntry("notation-foo", true, s2()), g.goxOnly("notation-bar", nil)}}))
+	}
 	return out
 }
 
@@ -799,7 +947,7 @@ func Run(c *common.Ctx) error {
 		}
 		emitSem(v, w)
 	}
-	c.Note("C20: %d operation sequences on a real plugin root with shell-script plugins (%d regression shapes, %d version-pair sequences = every ordered pair of %d versions x overwrite x source kind, %d random sequences of 1..6 install/uninstall operations over source shapes: file/dir, exec/non-exec candidates, extras sorting before/after, sub-directories incl. one named like the source, symlinks, misnamed/invalid metadata, odd names); %d semver pairs (all pairs of %d fixed strings + grammar-directed/mutated).",
+	c.Note("C20: %d operation sequences on a real plugin root with shell-script plugins (%d regression shapes, %d version-pair sequences = every ordered pair of %d versions x overwrite x source kind, %d random sequences of 1..6 install/uninstall operations - interleaved with the world planting stale / hand-copied / malfunctioning plugin directories (plant) or deleting only the binary (rmexe), 10% on a plugin root that does not exist yet - over file modes (owner / group-other execute bits independent) and source shapes: file/dir, exec/non-exec candidates, extras sorting before/after, sub-directories incl. one named like the source, symlinks, misnamed/invalid metadata, odd names); %d semver pairs (all pairs of %d fixed strings + grammar-directed/mutated).",
 		len(seqs), nShapes, nPairs, len(pool), nRandom, nSem, len(all))
 	return nil
 }
